@@ -14,7 +14,7 @@ LEVEL_TEXT = (
     "edge-length copy in the RWG divergence transform follows the library's edge convention."
 )
 LEVEL_NOTE = "Not decided: agreement 'to rounding' and reproduction of the recorded reference vectors (need execution and an FMM library); Maxwell evaluator closures are covered only through their transforms' edge convention."
-EXPLANATION = "rules FMM-NEAR-KERNELS, FMM-EVALUATORS, FMM-DISPATCH, FMM-BOUNDS, EDGE-CONV, K-SPEC (dense reference)"
+EXPLANATION = "rules FMM-NEAR-KERNELS, FMM-EVALUATORS, FMM-DISPATCH, FMM-BOUNDS, FMM-ROWS, EDGE-CONV, K-SPEC (dense reference)"
 ASSUMPTIONS = ["fmm_interface.evaluate returns [potential, gradient in the target] per target point", "Numba arithmetic semantics"]
 
 
@@ -22,5 +22,6 @@ def run(ctx):
     fmm.near_field_kernels(ctx)
     fmm.evaluator_terms(ctx)
     fmm.point_map_bounds(ctx)
+    fmm.transform_rows(ctx)
     c11.edge_convention(ctx)
     rules.kernel_specs(ctx, ("laplace", "helmholtz", "modified_helmholtz"), include_singular=False)
